@@ -39,6 +39,10 @@ GARBAGE = [
 ]
 
 
+HOSTILE_URLS = ['http://[2001:db8::1', 'https://example.org]/a',
+                'http://[rules]/EN_A_VS_AN', 'javascript:alert(1)',
+                'http://a b/%zz?x=\u00e4#"', '//x', 'http://\x00/', 'http://:80:90/']
+
 HTTP_FAULTS = [{'kind': 'http_status', 'code': c} for c in (400, 413, 500, 503)] \
     + [{'kind': 'http_disconnect'}] \
     + [{'kind': 'http_incomplete', 'after': a} for a in (0, 7, 200)]
@@ -228,6 +232,11 @@ def enumerate_single_faults(answer_obj, text, cfg):
                                'perturb': True})
     for g in GARBAGE:
         faults.append({'kind': 'garbage', 'hex': g.hex()})
+    # link addresses that URL parsers reject or treat specially
+    for p in paths:
+        if len(p) >= 3 and p[-1] == 'value' and p[-3] == 'urls':
+            for u in HOSTILE_URLS:
+                faults.append({'kind': 'retype_field', 'path': p, 'value': u})
     # unpaired surrogates spelt with upper-case hex digits (two faults at
     # once: the retyping and the spelling of the escapes)
     for p in paths:
@@ -268,7 +277,7 @@ def gen_base(rng, mode, short=False, ml=None):
     # merge matches of the shell's own checks with the proofreader's
     i = base['argv'].index('--output')
     extra = []
-    if rng.random() < 0.3:
+    if rng.random() < (0.6 if mode == 'html' else 0.3):
         extra.append('--link')
     if rng.random() < 0.15:
         extra += ['--single-letters', 'a|z.\\,B.|']
@@ -317,8 +326,9 @@ def fixed_bases():
         for ea in (False, True):
             out.append({'kind': 'shell', 'mode': mode, 'ml': False,
                         'lang': 'de-DE', 'names': ['fix.tex'],
-                        'argv': ['--lt-command', 'simlt', '--language', 'de-DE',
-                                 '--output', mode, 'fix.tex'],
+                        'argv': ['--lt-command', 'simlt', '--language', 'de-DE']
+                        + ([] if ea else ['--link'])     # urls are read (html)
+                        + ['--output', mode, 'fix.tex'],
                         'files': {'fix.tex': {'text': FIXED_TEX}},
                         'peer': {'targets': ['qdéz', 'qfiz'], 'dup': [],
                                  'nonascii': True, 'ensure_ascii': ea,
